@@ -233,6 +233,9 @@ StepLocked(st, i, order) ==
       r == Acquire(st, i, order)
   IN IF ~r.ok
      THEN [r.st EXCEPT !.pc[i] = "lockout_abort", !.threads = @ \cup {<<"lockout_abort", i>>}]
+     ELSE IF wl.codes[n][1] = 8
+     THEN (* the launcher cannot start the process: aio_run raises, aio_start answers ERROR (l.751-755) *)
+          [r.st EXCEPT !.pc[i] = "lockout_fail", !.threads = @ \cup {<<"lockout_fail", i>>}]
      ELSE (* mkdir, prepare, spawn, pid file, RUNNING *)
           [r.st EXCEPT !.proc[n] = Append(@, "spawned"),
                        !.pidf[n] = Len(st.proc[n]) + 1,
@@ -243,6 +246,12 @@ StepLocked(st, i, order) ==
 
 StepLockout(st, i) ==
   [st EXCEPT !.pc[i] = "procwait", !.threads = @ \cup {<<"procwait", i>>}]
+
+StepStartFailed(st, i) ==
+  (* leaving `with Locks()`: the tokens come back; the job is in error *)
+  LET s1 == ReleaseAll(st, i, st.held[i])
+      s2 == [s1 EXCEPT !.jstate[i] = "ERROR"]
+  IN LoopHead(s2, i)
 
 StepAborted(st, i) ==
   (* leaving `with Locks()`, then `job.state = WAITING` (l.637) *)
@@ -332,6 +341,7 @@ TaskStep(i) ==
                \E order \in Perms(ReqTokens(NameOf(i))) : s' = StepLocked(s0, i, order)
           [] s.pc[i] = "lockout" -> s' = StepLockout(s0, i)
           [] s.pc[i] = "lockout_abort" -> s' = StepAborted(s0, i)
+          [] s.pc[i] = "lockout_fail" -> s' = StepStartFailed(s0, i)
           [] s.pc[i] = "procwait" -> s' = StepExited(s0, i)
           [] s.pc[i] = "donehandler" -> s' = StepHandled(s0, i)
           [] OTHER -> FALSE
@@ -360,7 +370,7 @@ ThreadDone(kind, i) ==
   /\ LET n == NameOf(i)
          s1 == [s EXCEPT !.threads = @ \ {<<kind, i>>}, !.ready = BagAdd(@, CbTask(i))]
      IN s' = CASE kind = "lockin" -> [s1 EXCEPT !.lockh[n] = "sched"]
-               [] kind \in {"lockout", "lockout_abort"} -> [s1 EXCEPT !.lockh[n] = "free"]
+               [] kind \in {"lockout", "lockout_abort", "lockout_fail"} -> [s1 EXCEPT !.lockh[n] = "free"]
                [] OTHER -> s1
   /\ UNCHANGED wl
 
@@ -512,7 +522,7 @@ ATaskStep == \E i \in Insts : TaskStep(i)
 AJobWaitReturn == \E i \in Insts : JobWaitReturn(i)
 ADepCheck == \E i \in Insts : \E o \in Insts \cup Tokens : DepCheck(i, o)
 ANotify == \E i \in Insts : \E o \in Insts \cup Tokens : Notify(i, o)
-AThreadDone == \E i \in Insts : \E kind \in {"lockin", "lockout", "lockout_abort", "procwait", "adoptwait", "donehandler"} :
+AThreadDone == \E i \in Insts : \E kind \in {"lockin", "lockout", "lockout_abort", "lockout_fail", "procwait", "adoptwait", "donehandler"} :
                   ThreadDone(kind, i)
 AProcLock == \E n \in Names : \E k \in 1..3 : ProcLock(n, k)
 AProcExit == \E n \in Names : \E k \in 1..3 : ProcExit(n, k)
@@ -587,7 +597,7 @@ FailedDependentsCancelled ==
 IndependentJobsRun ==
   (s.phase = "closed") =>
      \A i \in NewInsts :
-        (\A o \in s.dorig[i] \cap Insts : s.jstate[o] = "DONE") => (s.myproc[i] > 0 \/ s.doneAtBegin[i])
+        (\A o \in s.dorig[i] \cap Insts : s.jstate[o] = "DONE") => (s.myproc[i] > 0 \/ s.doneAtBegin[i] \/ wl.codes[NameOf(i)][1] = 8)
 
 (* C08 *)
 HeldSum(t) == Sum([i \in Insts |-> IF t \in s.held[i] THEN wl.req[NameOf(i)][t] ELSE 0], Insts)
